@@ -12,7 +12,8 @@ EXPLANATION = ("Decides the premises from which the property follows for every s
                "recursion arm using a fresh buffer; the state is only reachable through its Mutex guard (type system + R03.1); R03.3 one send per "
                "record, the receiver moved into exactly one spawned closure and never cloned, each data message written by one call; R03.4 pooled "
                "buffers are cleared immediately before being pushed to the pool; R03.5 inventory of global mutable state; R03.6 in the buffered stdout/stderr mode every record is written into the one BufWriter reached through its Mutex guard (a second handle to the stream or a print macro would let a record overtake the thread's buffered ones)."
-               " R03.7 (shared with R01.4): at a rotation the writer is swapped - the old BufWriter dropped, hence flushed - before the cleanup may compress or remove the closed file.")
+               " R03.7 (shared with R01.4): at a rotation the writer is swapped - the old BufWriter dropped, hence flushed - before the cleanup may compress or remove the closed file."
+               " R03.8 every file-system effect (rename, remove, open, create, symlink, directory scan) on a call chain from a public operation of FileLogWriter executes with the state lock must-held - one critical section per operation; only work handed to the background cleanup thread runs outside.")
 ASSUMPTIONS = ["Mutex/RwLock give mutual exclusion, Stderr/Stdout::write_all holds the stream lock for the whole call (std)",
                "crossbeam unbounded channels are FIFO per sender", "write(2) on the same file description is not interleaved by the OS within one write_all of a BufWriter flush (not decided)"]
 NOT_DECIDED = ["atomicity of write(2)", "fairness", "interleaving of different sinks (file vs duplicate)"]
@@ -28,8 +29,52 @@ ALLOWED_STATICS = {
 }
 
 
+def fs_effects_under_state_lock(R, ctx, rule='R03.8'):
+    """one critical section for everything the file writer does to the file system on a caller's thread: walking every call chain from a public
+    operation of FileLogWriter (LogWriter impl, inherent methods, Drop) to a file-system effect (rename, remove, open, create, symlink, directory scan),
+    the state lock is must-held at the effect.  Work handed to the background cleanup thread (spawn edge) runs outside by design and is not on these
+    chains; the builder's directory creation happens before the state exists.  A query or maintenance operation that touches the directory outside the
+    lock races with the rotation another thread performs inside a log call."""
+    from callgraph import effect_class
+    f, cg, la = ctx.f, ctx.cg, ctx.locks
+    STATE = 'file_log_writer::state::State'
+    FS = {'FS_RENAME', 'FS_REMOVE', 'FS_OPEN', 'FS_CREATE', 'FS_SYMLINK', 'FS_READDIR'}
+    pred = lambda n, t: effect_class(n) in FS
+    entries = [b for b in f.fn_bodies() if b.kind != 'Closure' and b.promoted is None and
+               re.match(r'^(<writers::file_log_writer::FileLogWriter as .*>|writers::file_log_writer::FileLogWriter)::\w+$', b.path) and 'validate_logs' not in b.path]
+    sites = {}
+
+    def walk(path, held, chain, seen):
+        if (path, held) in seen or path not in f.bodies:
+            return
+        seen.add((path, held))
+        b = f.bodies[path]
+        for (bb, callee, kind) in cg.call_sites_reaching(b, pred):
+            now = held or any(STATE in h for h in la.must_held_local(path, bb))
+            if callee not in f.bodies:
+                if not re.match(r'^(writers::file_log_writer::|parameters::file_spec::)', root_fn(path)):
+                    continue        # e.g. the error channel's own file (util): not the log directory
+                d = sites.setdefault((root_fn(path), callee), {'locked': 0, 'unlocked': [], 'loc': b.loc(bb)})
+                if now:
+                    d['locked'] += 1
+                else:
+                    d['unlocked'].append(' -> '.join(x.split('::')[-1] for x in chain + [path]))
+            else:
+                walk(callee, now, chain + [path], seen)
+    for e in sorted(entries, key=lambda b_: b_.path):
+        walk(e.path, False, [], set())
+    if len(sites) < 6:
+        raise CheckError(f"{rule}: only {len(sites)} file-system effect sites found on the chains from FileLogWriter's public operations")
+    for (fn, eff), d in sorted(sites.items()):
+        R.check(rule, f"{fn}|{eff}|under-state-lock", not d['unlocked'], f"{eff} in {fn.split('::')[-1]}: state lock held on every chain ({d['locked']})",
+                f"{eff} in {fn} is reached without the state lock (chain {d['unlocked'][0] if d['unlocked'] else ''}): it races with the rotation / re-open another "
+                "thread performs under the lock", where=d['loc'])
+
+
 def run(R, ctx):
     f, cg = ctx.f, ctx.cg
+    R.rule('R03.8', 'MUST-HOLD(state lock, every file-system effect on the chains from FileLogWriter\'s public operations)')
+    fs_effects_under_state_lock(R, ctx)
     R.rule('R03.1', 'TYPE-LEVEL: forbid(unsafe_code), no static mut')
     R.rule('R03.2', 'COUNT-ON-PATHS: one emission of the complete line per record, per emitting body')
     R.rule('R03.3', 'async hand-over: one send, one consumer, one write per message')
